@@ -213,8 +213,17 @@ enum RunRes {
     TimedOut,
 }
 
-fn run_worker(id: &str, tier: Tier, stage: usize, a: u64, b: u64, timeout: Duration) -> RunRes {
-    let exe = std::env::current_exe().expect("current_exe");
+fn run_worker(id: &str, tier: Tier, stage: usize, a: u64, b: u64, timeout: Duration, dev: bool) -> RunRes {
+    // stages named "dev..." run in the harness binary built with the dev profile
+    // (overflow checks and debug assertions on, in the engine too)
+    let exe = if dev {
+        match std::env::var("VH_DEV_EXE") {
+            Ok(p) if std::path::Path::new(&p).exists() => std::path::PathBuf::from(p),
+            _ => return RunRes::Died("VH_DEV_EXE not set or missing: run through ./check".into()),
+        }
+    } else {
+        std::env::current_exe().expect("current_exe")
+    };
     let mut child = match Command::new(exe)
         .args(["worker", id, tier.name(), &stage.to_string(), &a.to_string(), &b.to_string()])
         .stdin(Stdio::null())
@@ -311,7 +320,7 @@ pub fn orchestrate(p: &dyn Prop, tier: Tier, plan: &Plan, jobs: usize) -> CheckR
                         Some(r) => r,
                         None => break,
                     };
-                    match run_worker(p.id(), tier, si, a, b, st.timeout) {
+                    match run_worker(p.id(), tier, si, a, b, st.timeout, st.name.starts_with("dev")) {
                         RunRes::Ok(o) => results.lock().unwrap().0.merge(o),
                         bad => {
                             let how = match &bad {
@@ -320,7 +329,7 @@ pub fn orchestrate(p: &dyn Prop, tier: Tier, plan: &Plan, jobs: usize) -> CheckR
                             };
                             if b - a == 1 {
                                 // isolated: confirm once more, then it is a verdict
-                                let again = run_worker(p.id(), tier, si, a, b, st.timeout);
+                                let again = run_worker(p.id(), tier, si, a, b, st.timeout, st.name.starts_with("dev"));
                                 let mut r = results.lock().unwrap();
                                 match again {
                                     RunRes::Ok(o) => {
